@@ -4,7 +4,8 @@
    str() of a float timestamp hold no line feed (fam_clean / fam_clean_om; re-checked per case by the harness).
    Names, label names, label values, help, units, exemplar labels are ARBITRARY strings. *)
 From V Require Import lib.PyBase lib.PyStr model.Utils model.Validation model.Expo model.Graphite
-  proofs.EscapeProofs proofs.LineProofs.
+  proofs.EscapeProofs proofs.LineProofs proofs.GrammarProofs.
+From V Require Import model.LineGrammar.
 Open Scope N_scope.
 
 (* the core of every line-structure argument: escaped text never contains a raw line feed *)
@@ -44,6 +45,22 @@ Print Assumptions C05_graphite_line.
 Theorem C05_sanitize_alphabet : forall s, Forall (fun c => graphite_ok c = true) (sanitize s).
 Proof. exact sanitize_chars. Qed.
 Print Assumptions C05_sanitize_alphabet.
+
+(* every sample line of the text exposition is accepted by the INDEPENDENT line grammar (model/LineGrammar.v, written
+   from the format description and sharing no code with the exposition or the parsers), whatever the sample name,
+   label names and label values are; the only hypothesis is about the float token CPython/floatToGoString produced:
+   +Inf, -Inf, NaN or a run of [0-9.e+-] (value_token; re-checked per case by the harness) *)
+Theorem C05_text_sample_line_in_grammar : forall s, value_token (go_string (s_value s)) ->
+  exists body, text_sample_line s = body ++ [LF] /\ is_sample_line_text body = true.
+Proof. exact text_sample_line_in_grammar. Qed.
+Print Assumptions C05_text_sample_line_in_grammar.
+
+(* the HELP and TYPE lines of a family are accepted by the grammar for ANY metric name and help text *)
+Theorem C05_text_meta_lines_in_grammar : forall mname doc typ, mem_str typ type_words_text = true ->
+  exists l1 l2, text_meta mname doc typ = l1 ++ [LF] ++ l2 ++ [LF] /\
+    is_help_line false l1 = true /\ is_type_line type_words_text l2 = true.
+Proof. exact text_meta_lines. Qed.
+Print Assumptions C05_text_meta_lines_in_grammar.
 
 (* non-vacuity: a family whose every string is hostile satisfies the hypotheses; it renders as 3 lines *)
 Example C05_example :
